@@ -1,47 +1,71 @@
 #!/usr/bin/env python3
-"""tools/export_props.py <Proofs module file> <Cxx> <header comment file or ''> name...
+"""tools/export_props.py <Cxx> <header file or ''> <Proofs file> name... [-- <Proofs file> name...]...
 Re-export proved lemmas (docstring + statement) as property theorems in lean/Sparrow/Props/<Cxx>.lean."""
 import re, sys
-src_path, prop, header = sys.argv[1], sys.argv[2], sys.argv[3]
-names = sys.argv[4:]
-src = open(src_path).read()
-mod = src_path.split('lean/')[-1][:-5].replace('/', '.')
-ns = re.search(r'^namespace (\S+)', src, re.M).group(1)
-opens = re.findall(r'^open (.+)$', src, re.M)
-out = ['import ' + mod]
-if header:
-    out.append(open(header).read().rstrip())
-out += ['namespace Sparrow.Props.' + prop, 'open ' + ' '.join(dict.fromkeys([ns] + [o for op in opens for o in op.split()])), '']
-for n in names:
-    m = re.search(r'((?:/--(?:(?!-/).)*-/\s*)?)theorem ' + re.escape(n) + r'\b(.*?):=\s*(?:by\b|\n)', src, re.S)
-    if not m:
-        raise SystemExit('theorem %s not found' % n)
-    doc, sig = m.group(1), m.group(2)
-    args, i, s = [], 0, sig
-    while i < len(s):
-        if s[i] in '({[':
-            close = {'(': ')', '{': '}', '[': ']'}[s[i]]
-            j, d = i, 0
-            while True:
-                if s[j] == s[i]:
-                    d += 1
-                if s[j] == close:
-                    d -= 1
-                    if d == 0:
-                        break
-                j += 1
-            inner = s[i + 1:j]
-            if s[i] == '(' and ':' in inner:
-                args += inner.split(':')[0].split()
-            i = j + 1
-        elif s[i] == ':' and s[i - 1] in ' \n':
-            break
+
+
+def export(src_path, names):
+    src = open(src_path).read()
+    mod = src_path.split('lean/')[-1][:-5].replace('/', '.')
+    ns = re.search(r'^namespace (\S+)', src, re.M).group(1)
+    opens = [o for op in re.findall(r'^open (.+)$', src, re.M) for o in op.split()]
+    body = []
+    for n in names:
+        m = re.search(r'((?:/--(?:(?!-/).)*-/\s*)?)theorem ' + re.escape(n) + r'\b(.*?):=\s*(?:by\b|\n)', src, re.S)
+        if not m:
+            raise SystemExit('theorem %s not found in %s' % (n, src_path))
+        doc, sig = m.group(1), m.group(2)
+        args, i, s = [], 0, sig
+        while i < len(s):
+            if s[i] in '({[':
+                close = {'(': ')', '{': '}', '[': ']'}[s[i]]
+                j, d = i, 0
+                while True:
+                    if s[j] == s[i]:
+                        d += 1
+                    if s[j] == close:
+                        d -= 1
+                        if d == 0:
+                            break
+                    j += 1
+                inner = s[i + 1:j]
+                if s[i] == '(' and ':' in inner:
+                    args += inner.split(':')[0].split()
+                i = j + 1
+            elif s[i] == ':' and s[i - 1] in ' \n':
+                break
+            else:
+                i += 1
+        body.append(doc.rstrip())
+        body.append('theorem ' + n.split('.')[-1] + sig.rstrip() + ' :=')
+        body.append('  ' + ns + '.' + n + ' ' + ' '.join(args))
+        body.append('')
+    return mod, [ns] + opens, body
+
+
+def main():
+    prop, header = sys.argv[1], sys.argv[2]
+    groups, cur = [], []
+    for a in sys.argv[3:]:
+        if a == '--':
+            groups.append(cur)
+            cur = []
         else:
-            i += 1
-    out.append(doc.rstrip())
-    out.append('theorem ' + n.split('.')[-1] + sig.rstrip() + ' :=')
-    out.append('  ' + ns + '.' + n + ' ' + ' '.join(args))
-    out.append('')
-out.append('end Sparrow.Props.' + prop)
-open('/verif/lean/Sparrow/Props/%s.lean' % prop, 'w').write('\n'.join(out) + '\n')
-print('wrote', len(names), 'theorems')
+            cur.append(a)
+    groups.append(cur)
+    imports, opens, body = [], [], []
+    for g in groups:
+        mod, op, b = export(g[0], g[1:])
+        imports.append(mod)
+        opens += op
+        body += b
+    out = ['import ' + m for m in dict.fromkeys(imports)]
+    if header:
+        out.append(open(header).read().rstrip())
+    out += ['namespace Sparrow.Props.' + prop, 'open ' + ' '.join(dict.fromkeys(opens)), ''] + body + ['end Sparrow.Props.' + prop]
+    open('/verif/lean/Sparrow/Props/%s.lean' % prop, 'w').write('\n'.join(out) + '\n')
+    print('wrote', sum(len(g) - 1 for g in groups), 'theorems')
+
+
+if __name__ == '__main__':
+    main()
